@@ -44,6 +44,9 @@ type FS struct {
 	// it returns how many bytes of the write reach the file before the crash
 	// (-1 = all, no crash).
 	Hook func(e Event) (partial int)
+	// Dead is set when a crash fired: the process is gone, so operations issued
+	// afterwards (deferred calls that run while the panic unwinds) have no effect.
+	Dead bool
 }
 
 // Cur is the file system all package-level functions operate on.
@@ -87,10 +90,19 @@ func (f *FS) SetContent(path string, data []byte) {
 func (f *FS) Remove(path string) { delete(f.files, path) }
 
 func (f *FS) event(op, path string, n int) int {
+	if f.Dead {
+		panic(Crash{At: -1})
+	}
 	e := Event{Seq: f.Seq, Op: op, Path: path, Len: n}
 	f.Seq++
 	f.Log = append(f.Log, e)
 	if f.Hook != nil {
+		defer func() {
+			if p := recover(); p != nil {
+				f.Dead = true
+				panic(p)
+			}
+		}()
 		return f.Hook(e)
 	}
 	return -1
@@ -144,6 +156,7 @@ func (f *File) Write(p []byte) (int, error) {
 	partial := f.fs.event("write", f.path, len(p))
 	if partial >= 0 && partial <= len(p) {
 		f.n.data = append(f.n.data, p[:partial]...)
+		f.fs.Dead = true
 		panic(Crash{At: f.fs.Seq - 1})
 	}
 	f.n.data = append(f.n.data, p...)
